@@ -280,10 +280,10 @@ class CumulusPolicyGenerator(ABC):
     ) -> Iterator[Sequence[str]]:
         if action.value.replaced is not None:
             raise NotImplementedError("Replacing Large community is not supported for Cumulus")
+        if action.value.removed:
+            raise NotImplementedError("Large-community remove is not supported for Cumulus")
         for community_name in action.value.added:
             yield "set", "large-community", community_name, "additive"
-        for community_name in action.value.removed:
-            raise NotImplementedError("Large-community remove is not supported for Cumulus")
 
     def _cumulus_then_rt_community(
             self,
@@ -293,10 +293,10 @@ class CumulusPolicyGenerator(ABC):
     ) -> Iterator[Sequence[str]]:
         if action.value.replaced is not None:
             raise NotImplementedError("Replacing RT extcommunity is not supported for Cumulus")
+        if action.value.removed:
+            raise NotImplementedError("RT extcommunity remove is not supported for Cumulus")
         for community_name in action.value.added:
             yield "set", "extcommunity rt", community_name, "additive"
-        for community_name in action.value.removed:
-            raise NotImplementedError("RT extcommunity remove is not supported for Cumulus")
 
     def _cumulus_then_soo_community(
             self,
@@ -306,10 +306,10 @@ class CumulusPolicyGenerator(ABC):
     ) -> Iterator[Sequence[str]]:
         if action.value.replaced is not None:
             raise NotImplementedError("Replacing SOO extcommunity is not supported for Cumulus")
-        for community_name in action.value.added:
-            yield "set", "extcommunity soo", community_name, "additive"
         if action.value.removed:
             raise NotImplementedError("SOO extcommunity remove is not supported for Cumulus")
+        for community_name in action.value.added:
+            yield "set", "extcommunity soo", community_name, "additive"
 
     def _cumulus_extcommunity_type_str(self, comm_type: CommunityType) -> str:
         if comm_type is CommunityType.SOO:
@@ -351,11 +351,11 @@ class CumulusPolicyGenerator(ABC):
             device: Any,
             action: SingleAction[AsPathActionValue],
     ) -> Iterator[Sequence[str]]:
+        if action.value.expand:
+            raise NotImplementedError("asp_path.expand is not supported for Cumulus")
         if action.value.prepend:
             for path_item in action.value.prepend:
                 yield "set", "as-path prepend", path_item
-        if action.value.expand:
-            raise NotImplementedError("asp_path.expand is not supported for Cumulus")
         if action.value.delete:
             for path_item in action.value.delete:
                 yield "set", "as-path exclude", path_item
